@@ -79,6 +79,15 @@ def proxy_semantics(fast=False):
             n += 1
             if run_one('and', maskops[0][1], a, mask) != (a & mask):
                 bad.append(('and', a, mask))
+        if a >= 0:
+            for mask in (0xFFFFFFF0, 0x0F0F, 0x80000001, 5, 0x100):
+                n += 3
+                if run_one('and', lambda x, m: x & m, a, mask) != (a & mask):
+                    bad.append(('and', a, mask))
+                if run_one('or', lambda x, m: x | m, a, mask) != (a | mask):
+                    bad.append(('or', a, mask))
+                if run_one('xor', lambda x, m: x ^ m, a, mask) != (a ^ mask):
+                    bad.append(('xor', a, mask))
         for k in (0, 1, 8, 16, 24):
             n += 2
             if run_one('rshift', maskops[1][1], a, k) != (a >> k):
